@@ -59,10 +59,14 @@ type vpBatch struct {
 	kind     int // 0 good row, 1 empty batch, 2 unmarshalable row
 	done     chan error
 	accepted bool
+	noDone   bool
 }
 
 func vpSubmit(b *BloomSearchEngine, ctx context.Context, kind int) *vpBatch {
 	bt := &vpBatch{kind: kind, done: make(chan error, 2)}
+	if kind == 4 { // fire-and-forget: a good row without a done channel
+		bt.kind, bt.done, bt.noDone = 0, nil, true
+	}
 	var rows []map[string]any
 	switch kind {
 	case 0:
@@ -71,6 +75,10 @@ func vpSubmit(b *BloomSearchEngine, ctx context.Context, kind int) *vpBatch {
 		rows = []map[string]any{vpBatchRow(true, "p")}
 	}
 	bt.accepted = b.IngestRows(ctx, rows, bt.done) == nil
+	if bt.noDone {
+		bt.done = make(chan error, 2) // nobody can have answered it: stays empty
+		bt.accepted = false
+	}
 	return bt
 }
 
@@ -102,7 +110,7 @@ func vpCheckAnswered(w *vpWorld, bt *vpBatch) {
 //vp:override (*bs.bloomEntrySets).buildFilters=vpBuildFiltersStub
 //vp:override bs.encodeFilterSection=vpEncodeSectionStub
 //vp:maxsteps 300000
-//vp:bounds ingest buffer 2 (thorough 1..2), MaxBufferedRows 1..2; a history of up to 3 calls drawn from IngestRows(good row | empty batch | unmarshalable row) and Flush, Start landing before any of them or after all (batches accepted before Start); CreateFile and MetaStore.Update fail or succeed arbitrarily at every call; then Stop(background); goroutines run to their next blocking point
+//vp:bounds ingest buffer 2 (thorough 1..2), MaxBufferedRows 1..2; a history of up to 3 calls drawn from IngestRows(good row | empty batch | unmarshalable row | good row without a done channel) and Flush, Start landing before any of them or after all (batches accepted before Start); CreateFile and MetaStore.Update fail or succeed arbitrarily at every call; then Stop(background); goroutines run to their next blocking point
 func H_C05_lifecycle_histories_answer_every_accepted_batch_once() {
 	w := vpNewWorld()
 	// one flush's fault paths are C06's subject; here a flush fails at CreateFile or at the commit, or not at all
@@ -120,7 +128,7 @@ func H_C05_lifecycle_histories_answer_every_accepted_batch_once() {
 			b.Start()
 			started = true
 		}
-		kind := nondetChoice(4)
+		kind := nondetChoice(5)
 		if kind == 3 {
 			vpAssume(started) // Flush on an engine that was never started waits for its Start
 			ferr := b.Flush(context.Background())
@@ -757,3 +765,64 @@ func H_C05_every_waiter_of_a_flush_is_attempted_once() {
 	vpAssert(len(b1) == 1 && len(b2) == 1, "C05: a waiter that can receive was not answered exactly once because delivery to another waiter failed")
 	vpAssert(len(abandoned) == 0, "C05: an abandoned unbuffered waiter cannot have received")
 }
+
+// Callers blocked on a full ingest buffer give up with their own context's error, are not
+// accepted (never answered, nothing queued on their behalf), and do not hold the state lock
+// afterwards (Stop proceeds).
+//
+//vp:override (*bs.bloomEntrySets).indexRow=vpIndexRowNop
+//vp:override (*bs.bloomEntrySets).buildFilters=vpBuildFiltersStub
+//vp:override bs.encodeFilterSection=vpEncodeSectionStub
+//vp:maxsteps 400000
+//vp:bounds started engine, ingest buffer 1, MaxBufferedRows 1, store wedged in CreateFile, pipeline filled to the brim; one further IngestRows or Flush caller whose context is cancelled once everything has parked; then the store is released and the engine stopped
+func H_C09_blocked_callers_give_up_with_their_context() {
+	w := vpNewWorld()
+	w.failCreate, w.failWrite, w.failClose, w.failUpdate, w.failTombstone = false, false, false, false, false
+	w.wedge = make(chan struct{})
+	b := vpNewIngestSystem(w, vpSysCfg{ingestBuf: 1, maxBufferedRows: 1, maxRowGroupRows: 1000, maxBufferedTime: time.Hour})
+	vpSetClock(2)
+	b.Start()
+	var dones []chan error
+	for i := 0; i < 4; i++ {
+		d := make(chan error, 1)
+		dones = append(dones, d)
+		vpAssert(b.IngestRows(context.Background(), []map[string]any{vpBatchRow(false, "p")}, d) == nil, "C05: IngestRows refused a batch on a running engine")
+		vpQuiesce()
+	}
+	vpAssert(len(b.ingestChan) == 1, "harness: the ingest buffer is not full")
+	callerCtx := vpNewCtx(nil)
+	useFlush := nondetBool()
+	res := make(chan error, 1)
+	d5 := make(chan error, 2)
+	go func() {
+		if useFlush {
+			res <- b.Flush(callerCtx)
+			return
+		}
+		res <- b.IngestRows(callerCtx, []map[string]any{vpBatchRow(false, "p")}, d5)
+	}()
+	vpQuiesce()
+	vpAssert(len(res) == 0, "C09: a caller returned although the ingest buffer is full and its context is live")
+	callerCtx.cancelWith(context.Canceled)
+	err := <-res
+	vpAssert(errors.Is(err, context.Canceled), "C09: a caller blocked on the full ingest buffer did not give up with its context's error")
+	vpAssert(len(b.ingestChan) == 1, "C05: a caller that gave up left a request queued")
+	close(w.wedge)
+	vpAssert(b.Stop(context.Background()) == nil, "C08: Stop returned an error (a caller that gave up must not keep the state lock)")
+	vpAssert(len(d5) == 0, "C05: a batch that was not accepted received an answer")
+	for _, d := range dones {
+		vpAssert(len(d) == 1, "C05: an accepted batch was not answered exactly once")
+	}
+}
+
+// C08's first clause under races: a caller that is anywhere inside IngestRows / Flush when Stop
+// begins is either refused or accepted-and-answered; an accepted Flush stranded behind a finished
+// Stop shows as a deadlock of this harness (the harness body is shared with C05).
+//
+//vp:override (*bs.bloomEntrySets).indexRow=vpIndexRowNop
+//vp:override (*bs.bloomEntrySets).buildFilters=vpBuildFiltersStub
+//vp:override bs.encodeFilterSection=vpEncodeSectionStub
+//vp:preempt 1
+//vp:maxsteps 300000
+//vp:bounds as H_C05_caller_racing_with_stop_is_refused_or_answered
+func H_C08_caller_racing_with_stop_is_refused_or_answered() { vpCallerRacingWithStop() }
